@@ -206,7 +206,8 @@ class Schema:
 
     def inst_shape(self, sid, depth=0):
         rng = self.rng
-        if depth > self.max_depth + 3:
+        self.budget -= 1
+        if depth > self.max_depth + 3 or self.budget < 0:
             return {}
         out = {}
         for key, node in self.shapes[sid].items():
@@ -220,6 +221,7 @@ class Schema:
 
     def samples(self, n=None):
         n = n or self.rng.choice([1, 2, 2, 3, 3, 4, 5, 6])
+        self.budget = 60  # objects per sample list (keeps the quadratic merge closure of the library fast)
         out = []
         for _ in range(n):
             s = self.inst_shape(self.root, 0)
@@ -354,3 +356,69 @@ def key_domain_ok(k: str, leading=True) -> bool:
     if leading and (k[0].isdigit() or k[0] == "_"):
         return False
     return True
+
+
+def ufold(k: str) -> str:
+    """case/punctuation folding after transliteration (the C11 'pairwise distinct after folding' domain filter)"""
+    try:
+        from unidecode import unidecode
+        k2 = unidecode(k)
+    except Exception:
+        k2 = k
+    return re.sub(r"[\W_]", "", k2).lower()
+
+
+def has_ascii_letter_after_translit(k: str) -> bool:
+    try:
+        from unidecode import unidecode
+        k2 = unidecode(k)
+    except Exception:
+        k2 = k
+    return bool(re.search(r"[A-Za-z]", k2))
+
+
+def pick_style_keys(rng, n, styles=None, exclude=(), leading_ok=False):
+    """n keys from KEY_STYLES, pairwise distinct after folding (also w.r.t. exclude)"""
+    styles = styles or list(KEY_STYLES)
+    seen = {ufold(k) for k in exclude}
+    out = []
+    tries = 0
+    while len(out) < n and tries < 60:
+        tries += 1
+        k = rng.choice(KEY_STYLES[rng.choice(styles)])
+        f = ufold(k)
+        if not f or f in seen or not key_domain_ok(k, leading=not leading_ok):
+            continue
+        seen.add(f)
+        out.append(k)
+    return out
+
+
+def keys_case(rng, styles=None, depth=2):
+    """sample list whose keys come from the key-style pools, as scalar-, object- and list-of-object-valued keys"""
+    used = []
+
+    def obj(d):
+        ks = pick_style_keys(rng, rng.randint(1, 4), styles, exclude=())
+        o = {}
+        for k in ks:
+            r = rng.random()
+            if d > 0 and r < 0.35:
+                o[k] = obj(d - 1)
+            elif d > 0 and r < 0.5:
+                o[k] = [obj(d - 1) for _ in range(rng.randint(1, 2))]
+            elif r < 0.6:
+                o[k] = rng.choice([["a", "b"], [1, 2], []])
+            else:
+                o[k] = rng.choice([1, 2.5, True, "s", "red", "1", "true", None, "2018-01-02"])
+        used.extend(ks)
+        return o
+
+    first = obj(depth)
+    samples = [first]
+    for _ in range(rng.choice([0, 1, 1, 2])):
+        # variants of the first sample: drop keys / null values (same key spelling, so no folded-equal pairs appear)
+        s = {k: (None if rng.random() < 0.15 else v) for k, v in first.items() if rng.random() < 0.8}
+        if s:
+            samples.append(s)
+    return {"profile": "keys", "samples": samples}
